@@ -122,15 +122,19 @@ class Cases:
     def total(self):
         return sum(len(c) for _, c in self.groups)
 
-    def run(self, limit=220_000):
+    def run(self, limit=200_000, max_cases=1500):
         shards = []
         cur_defs, cur_cases, size = [], [], 0
         dmap = {}
-        for defs, cases in self.groups:
+        groups = []
+        for defs, cases in self.groups:      # a big group (the atom-state grid) is cut into pieces sharing its definitions
+            for j in range(0, len(cases), max_cases):
+                groups.append((defs, cases[j:j + max_cases]))
+        for defs, cases in groups:
             for c in cases:
                 dmap[id(c)] = defs
             sz = len(defs) + sum(len(c[0]) + 12 for c in cases)
-            if cur_cases and size + sz > limit:
+            if cur_cases and (size + sz > limit or len(cur_cases) + len(cases) > max_cases):
                 shards.append((cur_defs, cur_cases))
                 cur_defs, cur_cases, size = [], [], 0
             cur_defs.append(defs)
@@ -146,7 +150,7 @@ class Cases:
             return ok, [cases[i] + (dmap[id(cases[i])],) for i in failing], log
 
         failed, logs, ok_all = [], [], True
-        with cf.ThreadPoolExecutor(max_workers=min(8, os.cpu_count() or 4)) as ex:
+        with cf.ThreadPoolExecutor(max_workers=4) as ex:
             for ok, fl, log in ex.map(one, range(len(shards))):
                 ok_all = ok_all and ok
                 failed.extend(fl)
@@ -359,7 +363,7 @@ def corr_grid(ck, cs):
                 m = grid_skeleton(extra, exo, fused)
                 name = f'sk{extra}{int(exo)}{int(fused)}'
                 sk[(extra, exo, fused)] = (name, mol_t(m, hole=1), sssr_t(m))
-                defs.append(f'Definition {name} (a1 : atom) : mol := {mol_t(m, hole=1)}.\nDefinition {name}r := {sssr_t(m)}.')
+                defs.append(f'Definition {name} (a1 : atom) : mol := {mol_t(m, hole=1)}.\nDefinition {name}r : list (list Z) := {sssr_t(m)}.')
     cases = []
     n_acc = 0
     for sym in GRID_ELEMENTS:
@@ -434,7 +438,7 @@ class Pipe:
                 self.bad(f'fix-rings-changes-molecule:{smi}', '__fix_rings changed atoms, total charge or connectivity', label, s1, s0,
                          'atoms / total charge / neighbour sets before and after', f'm=smiles({smi!r}); m.kekule(); print(m)')
         before = pre
-        defs.append(f'Definition g{i} := {mol_t(before)}.\nDefinition r{i} := {sssr_t(before)}.')
+        defs.append(f'Definition g{i} := {mol_t(before)}.\nDefinition r{i} : list (list Z) := {sssr_t(before)}.')
 
         # ---- stage 1: __prepare_rings correspondence on the whole molecule
         p = before.copy()
